@@ -135,6 +135,7 @@ type auditor struct {
 	seen    map[string]bool
 	closure map[string]bool         // every digest reached (manifests and blobs)
 	mans    map[string]bool         // manifests reached
+	refs    map[string]bool         // of these: reached as referrer (names a reached manifest as subject)
 	bySubj  map[string][]string     // subject digest -> manifests in the store naming it
 	facts   map[string]vtrace.Event // name -> image facts (for drift comparison outside the trace)
 	record  bool
@@ -142,7 +143,7 @@ type auditor struct {
 
 func newAuditor(st store, record bool) *auditor {
 	a := &auditor{st: st, seen: map[string]bool{}, closure: map[string]bool{}, mans: map[string]bool{},
-		bySubj: map[string][]string{}, facts: map[string]vtrace.Event{}, record: record}
+		refs: map[string]bool{}, bySubj: map[string][]string{}, facts: map[string]vtrace.Event{}, record: record}
 	for _, d := range st.digests() {
 		if !st.isManifest(d) {
 			continue
@@ -278,6 +279,7 @@ func (a *auditor) manifest(name, dig string) {
 	}
 	// referrers: every stored manifest whose subject is this manifest
 	for i, r := range a.bySubj[dig] {
+		a.refs[r] = true
 		a.manifest(fmt.Sprintf("%s/ref%d", name, i), r)
 	}
 	// layout fall-back tag <alg>-<first 64 hex> naming the referrers index
@@ -358,7 +360,7 @@ func closureHash(st store, root string) (string, []string) {
 	withRefs := newAuditor(st, false)
 	withRefs.manifest("root", root)
 	refs := []string{}
-	for d := range withRefs.mans {
+	for d := range withRefs.refs {
 		if !a.mans[d] {
 			refs = append(refs, d)
 		}
